@@ -25,9 +25,9 @@ UNITS = [(MB, "map_blocks"), (catalog.CU, "_pass_extra_kwargs"), (catalog.EX, "C
 STUBS = catalog.STUBS + ["user function -> harness functions reading block_info / block_id (stating the extent obligation through the "
                          "running engine)"]
 ASSUMPTIONS = [
-    "one array input, no new/dropped axes, chunks= not given, rank <= 2; block counts concrete, chunk sizes, slice bounds and data "
+    "one array input (and one two-input call of different ranks under drop_axis=0), chunks= not given, rank <= 2; block counts concrete, chunk sizes, slice bounds and data "
     "symbolic and unbounded; the placements of the call are the enumerated programs (names in evidence.bounds)",
-    "multiple inputs, new_axis/drop_axis, explicit chunks=, map_overlap's internal use of the same mechanism (decided under "
+    "other multi-input calls, new_axis, explicit chunks=, map_overlap's internal use of the same mechanism (decided under "
     "C19), user functions that are not pure: outside",
 ]
 
